@@ -397,13 +397,18 @@ func ruleArgumentOnlyWhenUnsupplied(c *Ctx, rule string) {
 			// every branch on the way is the not-found edge of a comma-ok lookup keyed by a type string, taken alone
 			okAll, why := false, "no supplier lookup guards the creation of the argument"
 			for _, iff := range controllingIfs(cs.instr) {
-				ex, ok := iff.Cond.(*ssa.Extract)
+				cond := iff.Cond
+				negated := false
+				if u, isNot := cond.(*ssa.UnOp); isNot && u.Op == token.NOT {
+					cond, negated = u.X, true
+				}
+				ex, ok := cond.(*ssa.Extract)
 				if !ok || ex.Index != 1 {
-					if _, isPhi := iff.Cond.(*ssa.Phi); isPhi {
+					if _, isPhi := cond.(*ssa.Phi); isPhi {
 						// a compound condition (`ok && ...`) sits between the lookup and the argument path
 						s := newSym(L, map[string]bool{})
 						s.maxD = 0
-						okAll, why = false, "the decision is a compound condition: "+strings.Join(s.eval(iff.Cond), "|")
+						okAll, why = false, "the decision is a compound condition: "+strings.Join(s.eval(cond), "|")
 						break
 					}
 					continue
@@ -413,6 +418,9 @@ func ruleArgumentOnlyWhenUnsupplied(c *Ctx, rule string) {
 					continue
 				}
 				notFound := iff.Block().Succs[1]
+				if negated {
+					notFound = iff.Block().Succs[0]
+				}
 				if (notFound == cs.instr.Block() || notFound.Dominates(cs.instr.Block())) && len(notFound.Preds) == 1 {
 					okAll, why = true, fmt.Sprintf("supplier lookup in block %d; its not-found edge (sole predecessor) dominates the argument creation", iff.Block().Index)
 				} else {
@@ -551,16 +559,9 @@ func ruleMigrateRound2(c *Ctx) {
 							}
 							if u2, ok := lk.X.(*ssa.UnOp); ok {
 								if fa2, ok := u2.X.(*ssa.FieldAddr); ok && fieldKey(fa2) == "internal/migrate.TypeConverter.imports" {
-									for _, r := range *lk.Referrers() {
-										if ex, ok := r.(*ssa.Extract); ok && ex.Index == 1 {
-											for _, rr := range *ex.Referrers() {
-												if iff, ok := rr.(*ssa.If); ok {
-													nf := iff.Block().Succs[1]
-													if (nf == b || nf.Dominates(b)) && len(nf.Preds) == 1 {
-														guarded = true
-													}
-												}
-											}
+									for _, t := range okTestsOf(lk) {
+										if (t.notFound == b || t.notFound.Dominates(b)) && len(t.notFound.Preds) == 1 {
+											guarded = true
 										}
 									}
 								}
